@@ -55,7 +55,7 @@ class ReceiveCb:
         if instrument.PROBING:
             return
         lg = self.log
-        lg.receives.append((lg.now(), self.dev_id, part, dev.cycle_time, lg.serial()))
+        lg.receives.append((lg.now(), self.dev_id, part, dev.cycle_time, lg.serial(), leaves_of(part)))
 
 
 class FinishCb:
